@@ -526,6 +526,11 @@ def ifexp_assignments_to_if(fn):
                 tgt, val = st.targets[0], st.value
             elif isinstance(st, ast.AnnAssign) and isinstance(st.value, ast.IfExp):
                 tgt, val = st.target, st.value
+            if isinstance(st, ast.Return) and isinstance(st.value, ast.IfExp):
+                a = ast.copy_location(ast.Return(value=st.value.body), st)
+                b = ast.copy_location(ast.Return(value=st.value.orelse), st)
+                out.append(ast.copy_location(ast.If(test=st.value.test, body=[a], orelse=[b]), st))
+                continue
             if tgt is not None and isinstance(tgt, ast.Name):
                 a = ast.copy_location(ast.Assign(targets=[ast.Name(id=tgt.id, ctx=ast.Store())], value=val.body), st)
                 b = ast.copy_location(ast.Assign(targets=[ast.Name(id=tgt.id, ctx=ast.Store())], value=val.orelse), st)
